@@ -167,6 +167,15 @@ fn to_snake_case(mut str: &str) -> String {
     words.join("_")
 }
 
+// A method whose snake case name is a Rust keyword (`Do`, `Loop`, `Type`, ...) needs a raw identifier.
+fn method_ident(name: &str) -> Ident {
+    let snake = to_snake_case(name);
+    syn::parse_str::<Ident>(&snake).unwrap_or_else(|_| match snake.as_str() {
+        "self" | "super" | "crate" => format_ident!("{}_", snake),
+        _ => format_ident!("r#{}", snake),
+    })
+}
+
 impl<'short, 'long: 'short> ToTokenStream<'short, 'long> for VStruct<'long> {
     fn to_tokenstream(
         &'long self,
@@ -334,7 +343,7 @@ fn varlink_to_rust(idl: &IDL, options: &GeneratorOptions, tosource: bool) -> Res
         let mut out_anot: Vec<TokenStream> = Vec::new();
 
         let call_name = Ident::new(&format!("Call_{}", t.name), Span::call_site());
-        let method_name = Ident::new(&to_snake_case(t.name), Span::call_site());
+        let method_name = method_ident(t.name);
         let varlink_method_name = format!("{}.{}", idl.name, t.name);
 
         generate_anon_struct(
